@@ -1,6 +1,7 @@
 import Sourmash.Lemmas.SetOpsMoreB
 import Sourmash.Lemmas.SetOpsSigRun
 import Sourmash.Lemmas.SetOpsCache
+import Sourmash.Lemmas.SetOpsReject
 /-! Property C03 — sketch operations mirror set operations on the underlying data.
 
 Property theorems only (helper lemmas: `Lemmas/SetOps*.lean`).  They are about the code-shaped model
@@ -141,6 +142,73 @@ theorem reject_all (k : Kind) (a b : Sk) (e : Err) (hc : checkCompatible a b = .
 example : checkCompatible exA { exB with seed := 7 } = .error .MismatchSeed := by
   simp [checkCompatible, exA, exB]
 
+
+/-- **T-reject_downsample**: asking `count_common` to downsample (`downsample = true`, the operands'
+`scaled()` differ) does not switch the compatibility check off.  The finer sketch is downsampled —
+which keeps its ksize, molecule and seed — and the coarser one then compares itself with the result
+through `check_compatible`: a pair that ALSO differs in ksize is refused with `MismatchKSizes`, in the
+molecule with `MismatchDNAProt`, in the seed with an error (`MismatchSeed`, or `MismatchScaled` when the
+coarser ceiling is not the one its `scaled()` maps back to); a num sketch against a scaled one with
+`MismatchScaled`.  In no such case is a count returned. -/
+theorem reject_downsample (k : Kind) (a b : Sk) (hs : a.scaled ≠ b.scaled) :
+    (a.ksize ≠ b.ksize → countCommon k a b true = .error .MismatchKSizes) ∧
+    (a.ksize = b.ksize → a.mol ≠ b.mol → countCommon k a b true = .error .MismatchDNAProt) ∧
+    (a.ksize = b.ksize → a.mol = b.mol → a.seed ≠ b.seed → ∃ e, countCommon k a b true = .error e) ∧
+    (a.ksize = b.ksize → a.mol = b.mol → (a.scaled = 0 ∨ b.scaled = 0) → a.maxHash ≠ b.maxHash →
+        countCommon k a b true = .error .MismatchScaled) := by
+  obtain ⟨first, second, d, hfs, hlt, hd, hcc⟩ := countCommon_ds_shape k a b hs
+  have hkms := downsampleScaled_kms k second d first.scaled hd
+  have hk : d.ksize = second.ksize := congrArg (·.1) hkms
+  have hm : d.mol = second.mol := congrArg (·.2.1) hkms
+  have hsd : d.seed = second.seed := congrArg (·.2.2) hkms
+  rw [hcc]
+  refine ⟨?_, ?_, ?_, ?_⟩
+  · intro h
+    apply countCommonPlain_err
+    apply (reject_variant first d).1
+    rw [hk]; rcases hfs with ⟨rfl, rfl⟩ | ⟨rfl, rfl⟩
+    · exact h
+    · exact fun e => h e.symm
+  · intro h1 h2
+    apply countCommonPlain_err
+    apply (reject_variant first d).2.1
+    · rw [hk]; rcases hfs with ⟨rfl, rfl⟩ | ⟨rfl, rfl⟩
+      · exact h1
+      · exact h1.symm
+    · rw [hm]; rcases hfs with ⟨rfl, rfl⟩ | ⟨rfl, rfl⟩
+      · exact h2
+      · exact fun e => h2 e.symm
+  · intro _ _ h3
+    have hne : first.kms ≠ d.kms := by
+      intro e
+      have : first.seed = d.seed := congrArg (·.2.2) e
+      rw [hsd] at this
+      rcases hfs with ⟨rfl, rfl⟩ | ⟨rfl, rfl⟩
+      · exact h3 this
+      · exact h3 this.symm
+    obtain ⟨e, he⟩ := checkCompatible_kms_err hne
+    exact ⟨e, countCommonPlain_err he⟩
+  · intro h1 h2 h0 h4
+    have hz : second.scaled = 0 := by
+      rcases hfs with ⟨rfl, rfl⟩ | ⟨rfl, rfl⟩ <;> omega
+    have hdd : d = second := by
+      have := downsampleScaled_num k second first.scaled hz
+      rw [this] at hd; cases hd; rfl
+    subst hdd
+    apply countCommonPlain_err
+    apply (reject_variant first d).2.2.1
+    · rcases hfs with ⟨rfl, rfl⟩ | ⟨rfl, rfl⟩
+      · exact h1
+      · exact h1.symm
+    · rcases hfs with ⟨rfl, rfl⟩ | ⟨rfl, rfl⟩
+      · exact h2
+      · exact h2.symm
+    · rcases hfs with ⟨rfl, rfl⟩ | ⟨rfl, rfl⟩
+      · exact h4
+      · exact fun e => h4 e.symm
+/-- non-vacuity: scaled 1 against scaled 2 (ceilings 2^64-1 and 2^63), k = 21 against k = 31 -/
+example : (Sk.new 1 21 .dna 42 false 0).scaled ≠ (Sk.new 2 31 .dna 42 false 0).scaled
+    ∧ (Sk.new 1 21 .dna 42 false 0).ksize ≠ (Sk.new 2 31 .dna 42 false 0).ksize := by decide
 
 /-! ### sketching is a homomorphism -/
 
